@@ -8,19 +8,19 @@ MC = "model_checking"
 CHECKS_C02 = CHECKS_C05 = CHECKS_C12 = None
 CHECKS = {
  "C01": dict(level=MC, design="7/C01", technique="TLA+ trace validation: Polar's closed forms at n=0..N bound to Moment() of the LoopDist semantics machine, checked by TLC",
-   text="Every closed form Polar returns for a corpus of hand-written shapes, repository benchmarks and generated programs is evaluated at each n <= N and each sampled parameter point and must equal the expectation computed by the explicit TLA+ semantics (spec/LoopDist.tla) that TLC executes exactly; finite-state programs are additionally decided for all n by the order-bound argument when N is large enough. Bounded in programs, parameter points and n; exhaustive over the probabilistic paths of every program.",
+   text="Every closed form Polar returns for a corpus of hand-written shapes, repository benchmarks and generated programs is evaluated at each n <= N and each sampled parameter point and must equal the expectation computed by the explicit TLA+ semantics (spec/LoopDist.tla) that TLC executes exactly; finite-state programs are additionally decided for all n by the order-bound argument when N is large enough. Bounded in programs, parameter points and n; exhaustive over the probabilistic paths of every program. Further parts: spec -> code replay of every program of a bounded grammar enumerated by TLC with its exact moment sequences (spec/ProgSpace.tla); programs with Normal / Uniform / Laplace draws decided through finitely supported laws with the same moments up to order 3 or 5; closed forms that are polynomials in probabilities of abstracted conditions evaluated at P(condition) computed by the semantics.",
    note="Trusted: TLC, spec/Exact.tla (self-tested), the text renderer / Polar's parser for repository files (judged by C19), sympy for evaluating closed forms at integer n."),
  "X02": dict(level=MC, design="7/C02", technique="TLA+ refinement under projection: source program and the program observed after every normalisation pass stepped side by side in TLC, joint law of source variables compared at every iteration",
-   text="The program after each pass that actually ran (recorded by run-time wrappers around Transformer.execute) is exported statement by statement and executed by the same TLA+ semantics as the source program; clause equiv requires equal joint distributions over the source variables at every iteration boundary, auxiliaries poisoned at start. Three option settings quick, four thorough.",
+   text="The program after each pass that actually ran (recorded by run-time wrappers around Transformer.execute) is exported statement by statement and executed by the same TLA+ semantics as the source program; clause equiv requires equal joint distributions over the source variables at every iteration boundary, auxiliaries poisoned at start. Three option settings quick, four thorough. Also: the structural facts observed after every pass must be steps of spec/Pipeline.tla (pass contracts; conformance information, not a violation), and for conditions abstracted as Bernoulli events the program with the independent stand-in draws must have the source's law on the variables that do not depend on the condition.",
    note="Trusted: the exporter of Polar's Program objects (reads public fields only), TLC, Exact. Passes that introduce an abstracted probability symbol are skipped."),
  "C03": dict(level=MC, design="7/C03", technique="TLA+ trace validation of every recurrence equation: expectation identity along the LoopDist behaviour and pointwise identity on every reachable store (induction), plus structural closedness",
-   text="For every equation of every system get_recurrences builds: recorded initial value = E_0[M]; E_n[M] = E_{n-1}[rhs] at every step; and for every reachable store s, E[M(next)|s] = rhs(s), which with the initial value is an inductive proof for all n on finite-state programs. Closedness / constant coefficients checked structurally.",
+   text="For every equation of every system get_recurrences builds: recorded initial value = E_0[M]; E_n[M] = E_{n-1}[rhs] at every step; and for every reachable store s, E[M(next)|s] = rhs(s), which with the initial value is an inductive proof for all n on finite-state programs. Closedness / constant coefficients checked structurally; pop orders of the real monomial worklist under several hash seeds must be behaviours of spec/Worklist.tla (model-checked over all dependency relations on 4 nodes) and give the same system.",
    note="The judged program is Polar's normalized program as exported; its equivalence with the source is C02."),
  "C04": dict(level=MC, design="7/C04", technique="TLC enumerates complete families of small linear systems (spec/LinRecFamily.tla) replayed into Polar's solvers; returned closed forms trace-validated against the machine x'=Ax+b (spec/LinRec.tla)",
    text="All 2x2 integer systems over {-2..2} x vectors over {-1,0,1} (and inhomogeneous / 3x3 families) are enumerated by TLC with their exact behaviours; Polar's acyclic and forced cyclic solver, exact and numeric root modes, must reproduce every component at n = 0..9, which by the order bound decides all n for exact closed forms. Fixed families cover nilpotent, Jordan, complex, irrational, parametric cases.",
    note="Quick tier replays a seeded sample of the enumerated family; numeric modes use a stated tolerance."),
  "X05": dict(level=MC, design="7/C05", technique="TLC executes the normalized program under the IR semantics and evaluates the type invariant on every intermediate store of every path and iteration",
-   text="Inferred Finite types (not user-declared ones) must contain the value of the variable in every store that exists after any assignment in any iteration, including frozen iterations after the guard became false; type_fp_iterations in {100,1} quick, {100,1,2} thorough.",
+   text="Inferred Finite types (not user-declared ones) must contain the value of the variable in every store that exists after any assignment in any iteration, including frozen iterations after the guard became false; type_fp_iterations in {100,1} quick, {100,1,2} thorough. The fixed-point typer itself is a machine (spec/Typer.tla, one action per sweep): the state recorded after every real sweep must equal the model's.",
    note="Depth-bounded for infinite-state programs; exhaustive over paths up to N iterations."),
 
  "C06": dict(level=MC, design="7/C06", technique="TLA+ trace validation: every printed basis polynomial evaluated on goal quantities computed by the LoopDist semantics (clause inv) at every n past the listed special cases",
@@ -31,16 +31,16 @@ CHECKS = {
    note="Degree-bounded (2 quick / 3 thorough); sympy nullspace and Groebner containment (on the printed basis, not Polar's code path) are trusted."),
  "C09": dict(level=MC, design="7/C09", technique="TLA+ trace validation of the moment-given-termination sequence against E[M ; not guard]/P(not guard) of the source program (clause cmom), aligned and lagged",
    text="get_moment_given_termination evaluated at every n is compared with the conditional expectation given the guard is false computed by the semantics; the known one-iteration lag (finding D9) is recognised by a second, lagged clause so that any other deviation is still reported.",
-   note="Sequence clause only; the limit n -> infinity is not decided. KNOWN-FINDING D9 is printed while it persists."),
+   note="The limit n -> infinity is not decided by the spec: the reported after-loop values (raw, central, cumulant) are compared outside TLC with far terms of the validated sequence. KNOWN-FINDING D9 is printed while it persists."),
  "C10": dict(level=MC, design="7/C10", technique="dual-number semantics in TLA+: the parameter is seeded p0 + eps in the abstract program, the eps-part of Moment() is the exact derivative; both Polar sensitivity methods trace-validated against it",
-   text="Sensitivity recurrences (DiffRecBuilder) and the differentiated closed form are both bound at every n <= N and 2 parameter points to the derivative carried by the dual-number scalars of spec/Exact.tla through the LoopDist behaviour.",
-   note="Parameters in probabilities and symbolic initial values of generated programs."),
+   text="Sensitivity recurrences (DiffRecBuilder) and the differentiated closed form are both bound at every n <= N and 2 parameter points to the derivative carried by the dual-number scalars of spec/Exact.tla through the LoopDist behaviour; for fixed templates and some generated programs the values the sensitivity action itself prints (driven through the argument parser with --at_n) are validated the same way.",
+   note="Parameters in probabilities, coefficients and symbolic initial values."),
  "C11": dict(level=MC, design="7/C11", technique="TLA+ trace validation: central moments from the definition and cumulants from the set-partition formula on the exact law vs Polar's conversions of its closed forms",
    text="For orders k <= 4, Polar's central moments and cumulants evaluated at every n must equal sum w (M - EM)^k and the partition-formula cumulant computed by TLC on the exact distribution.",
-   note="Tail bounds and the Gram-Charlier / Cornish-Fisher expansions are not covered yet (see DESIGN.md section 8)."),
+   note="Also: printed tail bounds (clauses tailU/tailL with the stated assumption evaluated by the spec), Gram-Charlier densities (exact normal moments against partition-formula raw moments, orders up to 7) and Cornish-Fisher polynomials (transcribed standard expansion, five cumulants) in spec/Dists.tla; cumulants on the expansion path with --at_n."),
  "X12": dict(level=MC, design="7/C12", technique="exhaustive enumeration of the simulator's random resolutions (scripted random sources) trace-validated against the path machine spec/LoopSem.tla; induced distribution compared with LoopDist; TLC-generated behaviours replayed into the simulator",
    text="Every resolution of every random call of Simulator.simulate up to N iterations is a recorded run; each must be a behaviour of LoopSem (same alternatives, probabilities, guard decisions, successor stores), runs must be distinct and their weights grouped by final store must equal the lifted distribution. Conversely TLC-simulated behaviours are forced onto the simulator and stores compared.",
-   note="Programs with dyadic constants (float exactness); sampler call conventions of continuous families are not covered yet."),
+   note="Programs with dyadic constants (float exactness). Continuous samplers: numpy's primitive generators are replaced by a constant z so that every scipy draw reveals location + scale*z; the derandomised program is validated by LoopSem for z in {0, 1/2, 2}."),
  "C16": dict(level=MC, design="7/C16", technique="TLC scans every exponent vector of a box and checks soundness, independence and completeness of Polar's lattice basis with exact arithmetic in Q, Q(i), Q(sqrt d) (spec/ExpLattice.tla)",
    text="For fixed and seeded lists of rational, Gaussian and real-quadratic bases, every basis vector must be a relation, the basis must have full rank, and every relation in [-B,B]^k must be an integer combination of the basis.",
    note="Completeness inside the box only; base lists sampled from the stated menus."),
@@ -49,7 +49,7 @@ CHECKS = {
    note="force_cyclic_solver is passed through a run-time wrapper (not reachable from the CLI)."),
  "C19": dict(level=MC, design="7/C19", technique="spellings of one abstract program: Polar's parse of each text refines the abstract program (clause equiv) and its closed forms equal the abstract program's moments; ill-formed texts and invalid probability vectors must be rejected",
    text="Seven spellings per template (whitespace/comments, parentheses, decimals, explicit last probability, temporaries, nested else-if) are each validated against the generator's abstract program; 33 texts outside the grammar / with invalid probability vectors must end in an error.",
-   note="No grammar model: rejection is checked for listed mutation classes only."),
+   note="Block structure of the grammar: spec/LineGrammar.tla enumerates every sequence of line categories up to a bound with its verdict, Polar's parser must accept exactly the well-formed ones (20 000 texts quick). Inside a line (expressions, conditions) rejection is checked for listed mutation classes only."),
  "C20": dict(level=MC, design="7/C20", technique="spec/Session.tla models the process-global state; TLC enumerates all bounded histories, predicts hidden state and name collisions; behaviours replayed in one real process and compared with fresh-process references; goal orders and hash seeds replayed",
    text="All histories up to 3 (quick) / 4 (thorough) actions over 5 programs x 3 option toggles; after every action the real unique-name counter, settings and class flag must equal the model's, and every result must equal the fresh reference up to renaming of generated symbols.",
    note="Alphabet of programs is fixed; caches are not modelled (their keys are object identities or pure function arguments)."),
